@@ -57,7 +57,7 @@ var symX = sym{"x", "x"}
 var posOffenders = []posOffender{
 	{"unbalanced-brackets", kv{sym{"open", "a["}, symX}},
 	{"unbalanced-brackets", kv{sym{"open-known", "Strs["}, symX}},
-	{"", kv{sym{"close", "a]"}, symX}}, // no '[': bracket notation is not engaged, no reference verdict
+	{"", kv{sym{"close", "a]"}, symX}},         // no '[': bracket notation is not engaged, no reference verdict
 	{"", kv{sym{"close-known", "Str]"}, symX}}, // no '[': bracket notation is not engaged, no reference verdict
 	{"unbalanced-brackets", kv{sym{"lone-open", "["}, symX}},
 	{"", kv{sym{"lone-close", "]"}, symX}}, // no '[': bracket notation is not engaged, no reference verdict
